@@ -25,7 +25,7 @@ fn parts() -> Vec<Box<dyn PartDyn>> {
     vec![
         Box::new(GenPart {
             name: "xform",
-            quick: 40_000,
+            quick: 120_000,
             thorough: 1_000_000,
             shrink_iters: 800,
             strat: xform_strategy,
@@ -33,7 +33,7 @@ fn parts() -> Vec<Box<dyn PartDyn>> {
         }),
         Box::new(GenPart {
             name: "mul",
-            quick: 20_000,
+            quick: 200_000,
             thorough: 500_000,
             shrink_iters: 300,
             strat: mul_strategy,
@@ -41,7 +41,7 @@ fn parts() -> Vec<Box<dyn PartDyn>> {
         }),
         Box::new(GenPart {
             name: "eval_poly",
-            quick: 160,
+            quick: 600,
             thorough: 4_000,
             shrink_iters: 60,
             strat: evalpoly_strategy,
@@ -49,7 +49,7 @@ fn parts() -> Vec<Box<dyn PartDyn>> {
         }),
         Box::new(GenPart {
             name: "e2e",
-            quick: 6_000,
+            quick: 8_000,
             thorough: 150_000,
             shrink_iters: 400,
             strat: |t| gen::kind_rate().prop_flat_map(move |k| gen::round_of_kind(k, t.pick(600, 2000))).boxed(),
@@ -78,7 +78,7 @@ pub struct XformCase {
 pub fn xform_strategy(_t: Tier) -> BoxedStrategy<XformCase> {
     (
         prop_oneof![Just(Xform::Fft), Just(Xform::Ifft)],
-        prop_oneof![6 => 0u8..=7, 2 => 8u8..=10],
+        prop_oneof![24 => 0u8..=7, 8 => 8u8..=10, 1 => 11u8..=13],
         prop_oneof![3 => Just(0usize), 3 => 1usize..=9, 1 => 10usize..=70],
         0usize..=3,
         prop_oneof![5 => Just(1usize), 2 => Just(2usize), 1 => 3usize..=4],
